@@ -78,6 +78,9 @@ func (r *Runner) execStat(a []string) string {
 		// every operand is finite; the starting sum is the float f[1] itself (compensation 0)
 		track := !anyNaN(f[0], f[1], f[2], f[3]) && !math.IsInf(f[1], 0)
 		exact, absTot := new(big.Rat), new(big.Rat)
+		if track && f[1] != 0 && math.Abs(f[1]) < 1e-280 {
+			track = false
+		}
 		if track {
 			exact.SetFloat64(f[1])
 			absTot.Abs(exact)
@@ -91,6 +94,9 @@ func (r *Runner) execStat(a []string) string {
 			return true
 		}
 		rat := func(x float64) *big.Rat { return new(big.Rat).SetFloat64(x) }
+		// products or partial results near the subnormal range are rounded with an absolute, not a relative, error:
+		// "a few ulps of the total" says nothing there, the bookkeeping stops
+		tiny := func(x float64) bool { return x != 0 && math.Abs(x) < 1e-280 }
 		checkSum := func(what string) {
 			if !track {
 				return
@@ -127,7 +133,7 @@ func (r *Runner) execStat(a []string) string {
 					return
 				}
 				if ops[0] == "addsum" {
-					if track && fin(k) {
+					if track && fin(k) && !tiny(k) {
 						exact.Add(exact, rat(k))
 						absTot.Add(absTot, new(big.Rat).Abs(rat(k)))
 					} else {
@@ -141,8 +147,19 @@ func (r *Runner) execStat(a []string) string {
 					}
 				} else {
 					st.AddToSum(k)
-					if clean && !math.IsNaN(k) && !math.IsInf(k, 0) && st.Sum() != cur[1]+k {
-						r.oracleFail("stat-add", fmt.Sprintf("AddToSum(%v) on %v gives %v", k, cur[1], st.Sum()))
+					// Sum() returns sum + sumCompensation where Kahan's total is sum − sumCompensation (the pattern of
+					// JDK-8214761): off by up to 2|c| ≤ one ulp, plus the rounding of that addition — within two ulps of the
+					// exact a+k, which is inside the "few ulps" of C10 (DESIGN §7, findings outside the properties)
+					if clean && !math.IsNaN(k) && !math.IsInf(k, 0) {
+						ex := new(big.Rat).Add(rat(cur[1]), rat(k))
+						ef, _ := ex.Float64()
+						if math.Abs(ef) < 1e300 && !math.IsInf(st.Sum(), 0) && !math.IsNaN(st.Sum()) {
+							d := new(big.Rat).Sub(rat(st.Sum()), ex)
+							ulp := math.Nextafter(math.Abs(ef), math.Inf(1)) - math.Abs(ef)
+							if d.Abs(d).Cmp(rat(2*ulp)) > 0 {
+								r.oracleFail("stat-add", fmt.Sprintf("AddToSum(%v) on %v gives %v", k, cur[1], st.Sum()))
+							}
+						}
 					}
 				}
 				ops = ops[2:]
@@ -154,7 +171,7 @@ func (r *Runner) execStat(a []string) string {
 				}
 				ops = ops[2:]
 				st.Rescale(k)
-				if track && fin(k) {
+				if track && fin(k) && !tiny(st.Sum()) && !tiny(k) {
 					exact.Mul(exact, rat(k))
 					absTot.Mul(absTot, new(big.Rat).Abs(rat(k)))
 					checkSum(fmt.Sprintf("Rescale(%v)", k))
@@ -181,7 +198,7 @@ func (r *Runner) execStat(a []string) string {
 				}
 				ops = ops[2:]
 				st.Reweight(k)
-				if track && fin(k) {
+				if track && fin(k) && !tiny(st.Sum()) && !tiny(k) {
 					exact.Mul(exact, rat(k))
 					absTot.Mul(absTot, new(big.Rat).Abs(rat(k)))
 					checkSum(fmt.Sprintf("Reweight(%v)", k))
@@ -206,7 +223,7 @@ func (r *Runner) execStat(a []string) string {
 				}
 				ops = ops[3:]
 				st.Add(v, w)
-				if track && fin(v, w) {
+				if track && fin(v, w) && !tiny(v*w) && !tiny(st.Sum()) {
 					pr := new(big.Rat).Mul(rat(v), rat(w))
 					exact.Add(exact, pr)
 					absTot.Add(absTot, pr.Abs(pr))
